@@ -211,7 +211,9 @@ func execCyclic(cs hx.Sx) hx.Sx {
 				defer running.Done()
 				for n, c := range script {
 					kv := hx.Items(c)
-					c07Commit(p.jp, pipeline.VerifC07Event(pipeline.SourceID(sid), uint64(n+1), hx.Int(kv[1]), hx.Str(kv[0])))
+					e, recycle := c07Event(sid, uint64(n+1), hx.Int(kv[1]), hx.Str(kv[0]))
+					c07Commit(p.jp, e)
+					recycle() // borrowed stream name: overwritten once commit returned
 					if n%2 == 0 {
 						runtime.Gosched()
 					}
@@ -359,7 +361,9 @@ func execHistory(cs hx.Sx) hx.Sx {
 			if fi < len(files) {
 				sid = files[fi].sid
 			}
-			e := pipeline.VerifC07Event(pipeline.SourceID(sid), hx.Uint(a[3]), hx.Int(a[5]), hx.Str(a[4]))
+			// the stream name is BORROWED (c07Lend): an unsafe string into a buffer that is overwritten as soon as commit
+			// returned - also when it panicked - as the pipeline does when it recycles the event
+			e, recycle := c07Event(sid, hx.Uint(a[3]), hx.Int(a[5]), hx.Str(a[4]))
 			switch hx.Int(a[2]) {
 			case 1:
 				e.SetUnlockKind()
@@ -371,6 +375,9 @@ func execHistory(cs hx.Sx) hx.Sx {
 				e.SetChildParentKind()
 			}
 			m, to = within(func() { c07Commit(p.jp, e) })
+			if !to { // a commit that is still running keeps its event
+				recycle()
+			}
 		case 1:
 			m, to = within(func() { p.save() })
 		case 2:
@@ -674,6 +681,7 @@ func genHistories(c *hmain.Ctx) {
 				L(I(0), I(1), I(0), U(8), S(""), Z(90)), L(I(1)), L(I(6), I(0)), L(I(1)), L(I(3), I(1), I(5)), L(I(7), I(1), Z(5))})
 		}
 	}
+	genBorrowedNames(c, do)
 	for i := 0; i < 250*c.Scale; i++ {
 		if c07Hangs >= 3 { // every wedged provider costs 10 s and the code is convicted already
 			c.W.Count("provider-history: generation stopped after 3 wedged providers")
@@ -702,5 +710,118 @@ func genHistories(c *hmain.Ctx) {
 		}
 		c.W.Count(fmt.Sprintf("provider-history: sync=%d offsets_op=%d", syncMode, op0))
 		do("provider-history", syncMode, op0, files, g.ops)
+	}
+}
+
+// ---- provider-borrowed-names (which 10) -------------------------------------------------------------------------
+// The stream name of a committed event is an unsafe string into pooled event memory: every commit of the histories
+// borrows its name from a buffer the harness overwrites once commit returned (c07Lend). This family makes sure every
+// way a name can reach job.offsets is followed by a save + load AFTER the buffer was overwritten: the first commit of a
+// stream of a job (the name is added to the table) and later ones (the name is looked up), the same name on a second
+// job, another stream in between, the first commit after a graceful restart (the name came from the offsets file), a
+// childParent event, a commit that panics (offset not above the stored one) - async (the save is the next tick) and
+// sync (the save is inside commit, the NEXT save comes after the overwrite). Names: the pipeline's default stream name
+// "not_set" (an event whose own stream field says so), all its prefixes, names around it (longer, other case, embedded),
+// the usual ones, the empty name, and a name of EVERY length 0..48 (thorough: 0..300) plus lengths around 64 / 256 /
+// 1024 / 4096; bytes of the long names are random (no newline: known finding C07-newline-name).
+// Judged by the model of which 10 as it is: the table - hence every file - is a function of the committed (name, offset)
+// VALUES, so a name that changed after the commit is a file that is no snapshot of any table of the history.
+func genBorrowedNames(c *hmain.Ctx, do func(stream string, syncMode, op0 int, files []hx.Sx, ops []hx.Sx)) {
+	r := c.R
+	L, I, S, Z, U := hx.L, hx.I, hx.S, hx.Z, hx.U
+	def := string(pipeline.DefaultStreamName)
+	var names []string
+	for i := 0; i <= len(def); i++ {
+		names = append(names, def[:i])
+	}
+	names = append(names, def+"_", def+def, "x"+def, strings.ToUpper(def), def[1:], "not-set", "stdout", "stderr", "a: 5", ":", "ж")
+	maxLen := 48
+	if c.Scale > 1 {
+		maxLen = 300
+	}
+	for n := 0; n <= maxLen; n++ {
+		names = append(names, randBytesNoNL(r, n))
+	}
+	for _, n := range []int{63, 64, 65, 255, 256, 257, 1023, 1024, 4095, 4096, 4097} {
+		if n > maxLen {
+			names = append(names, randBytesNoNL(r, n))
+		}
+	}
+	files := []hx.Sx{L(S("a.log"), I(200)), L(S(def), I(200))}
+	commit := func(fi, kind int, seq uint64, name string, off int64) hx.Sx {
+		return L(I(0), I(fi), I(kind), U(seq), S(name), Z(off))
+	}
+	save := L(I(1))
+	for k, name := range names {
+		other := "stderr"
+		if name == other {
+			other = "stdout"
+		}
+		if k%3 == 1 {
+			other = def
+			if name == def {
+				other = ""
+			}
+		}
+		for syncMode := 0; syncMode <= 1; syncMode++ {
+			kind := 0
+			if (k+syncMode)%5 == 4 {
+				kind = 4 // childParent events commit too
+			}
+			ops := []hx.Sx{
+				commit(0, kind, 1, name, 10), save, // first commit of the stream: the name enters the table
+				commit(1, 0, 2, other, 5), save, // the recycled event carries another line of another file
+				commit(0, 0, 3, name, 20), save, // a later commit: the name is looked up
+				commit(1, kind, 4, name, 7), save, // the same name, first commit on the second job
+				commit(0, 0, 5, other, 30), commit(0, 0, 6, name, 20), save, // a second stream; a commit that panics (not above 20)
+				L(I(6), I(0)), save, // graceful restart: the names now come from the offsets file
+				commit(0, 0, 1, name, 40), commit(1, 0, 2, other, 50), save,
+				commit(1, 0, 3, name, 60), save, L(I(6), I(1)), save}
+			c.W.Count(fmt.Sprintf("provider-borrowed-names: sync=%d", syncMode))
+			switch {
+			case name == def:
+				c.W.Count("provider-borrowed-names: the name is the default stream name")
+			case name == "":
+				c.W.Count("provider-borrowed-names: the empty name")
+			case len(name) >= 64:
+				c.W.Count("provider-borrowed-names: name of 64 bytes or more")
+			}
+			do("provider-borrowed-names", syncMode, 0, files, ops)
+		}
+	}
+	// random: 2..3 files, names drawn from a small pool (so that first and later commits, equal names on different jobs
+	// and the default name mix), a save after a random number of commits, restarts
+	for i := 0; i < 40*c.Scale; i++ {
+		pool := []string{def, "", hx.Pick(r, names), hx.Pick(r, names), "stdout"}
+		nf := r.Range(2, 3)
+		fl := []hx.Sx{L(S("a.log"), I(300)), L(S("b.log"), I(300)), L(S(def), I(300))}[:nf]
+		offs := make([]map[string]int64, nf)
+		for k := range offs {
+			offs[k] = map[string]int64{}
+		}
+		var ops []hx.Sx
+		seq := uint64(0)
+		for n := r.Range(6, 30); n > 0; n-- {
+			switch x := r.Intn(10); {
+			case x < 6:
+				fi := r.Intn(nf)
+				name := hx.Pick(r, pool)
+				seq++
+				offs[fi][name] += int64(r.Range(1, 9))
+				ops = append(ops, commit(fi, 0, seq, name, offs[fi][name]))
+			case x < 9:
+				ops = append(ops, save)
+			default:
+				ops = append(ops, L(I(6), I(0)), save)
+				seq = 0
+			}
+		}
+		ops = append(ops, save)
+		syncMode := 0
+		if r.Chance(1, 4) {
+			syncMode = 1
+		}
+		c.W.Count("provider-borrowed-names: random history")
+		do("provider-borrowed-names", syncMode, 0, fl, ops)
 	}
 }
